@@ -107,7 +107,7 @@ type op struct {
 	gcAt    int // >0: at the run's gcAt-th data-tree callback the client forces a garbage collection and lets the finalizers run
 	gram    int
 	expr    string
-	mapMode int // 0 nil, 1 ok, 2 fails at 2nd call
+	mapMode int // 0 nil, 1 ok, 2 fails at 2nd call, 3 ok but binds the prefixes to other namespaces
 	shared  int
 	ctx     int
 	failAt  int
@@ -131,6 +131,9 @@ func mkMapFn(mode int) xpath.PfxMapFn {
 		calls++
 		if mode == 2 && calls == 2 {
 			return "", fmt.Errorf("SIMFAULT-mapFn-2")
+		}
+		if mode == 3 {
+			return "urn:other:" + pfx, nil // the same prefixes, bound to other namespaces
 		}
 		return "urn:" + pfx, nil
 	}
@@ -464,6 +467,7 @@ func (w world) RunCase(t *tape.Tape, st *super.Stats) *super.Violation {
 		}
 	}
 	progs := make([][]op, W)
+	var compiled []op // the compile operations generated so far (any client)
 	for c := 0; c < W; c++ {
 		n := 3 + t.Draw(7)
 		if crowd {
@@ -497,7 +501,7 @@ func (w world) RunCase(t *tape.Tape, st *super.Stats) *super.Violation {
 					o.gcAt = 1 + t.Draw(4)
 				}
 			case 0:
-				o = op{kind: 0, gram: t.Pick(5, 2, 1, 2, 1), mapMode: t.Pick(3, 3, 1)}
+				o = op{kind: 0, gram: t.Pick(5, 2, 1, 2, 1), mapMode: t.Pick(3, 3, 1, 2)}
 				wv := 0
 				if g.Focus > 0 {
 					wv = 3
@@ -520,6 +524,20 @@ func (w world) RunCase(t *tape.Tape, st *super.Stats) *super.Violation {
 				case 2:
 					o.expr = g.Leafref()
 				}
+				if len(compiled) > 0 && t.Rare(5) {
+					// the same text (same grammar) as an earlier compilation of the case, under another prefix map
+					prev := compiled[t.Draw(len(compiled))]
+					o.expr, o.gram = prev.expr, prev.gram
+					o.mapMode = []int{1, 3}[t.Draw(2)]
+					if o.mapMode == prev.mapMode {
+						o.mapMode = 4 - prev.mapMode
+						if prev.mapMode != 1 && prev.mapMode != 3 {
+							o.mapMode = 3
+						}
+					}
+					inc("reach:same_text_compiled_under_another_prefix_map")
+				}
+				compiled = append(compiled, o)
 			case 1:
 				o = op{kind: 1, shared: t.Draw(nShared), ctx: t.Draw(len(tree.Nodes))}
 				if crowd {
@@ -893,10 +911,8 @@ func (w world) RunCase(t *tape.Tape, st *super.Stats) *super.Violation {
 		type ci struct{ c, i int }
 		var cand []ci
 		for c, p := range progs {
-			for i, o := range p {
-				if o.kind != 0 {
-					cand = append(cand, ci{c, i})
-				}
+			for i := range p {
+				cand = append(cand, ci{c, i}) // run operations and compilations (whose outcome is the machine's listing)
 			}
 		}
 		nfresh := 4
